@@ -15,6 +15,7 @@ import RbModel.Lemmas.GsubMultiSpec
 import RbModel.Lemmas.GsubMultiDel
 import RbModel.Lemmas.GsubMultiMixed
 import RbModel.Lemmas.GsubLigFwd
+import RbModel.Lemmas.GsubLigFlags
 
 namespace RbModel.Buf
 
@@ -845,6 +846,30 @@ theorem C06_ligature_subst_refines_spec (l : Lookup) (hall : l.subtables.all Sub
   exact applyString_lig l hall hshort hp C06_gen_buffer_variants.2 C06_gen_extend_start_guard c fuel hps hlv hfl hsu hlen hout
     hbud hplain hfeat hmono
 
+/-- **C06, ligature substitution on buffers whose masks carry glyph flags (partial: the three glyph-flag bits of the masks are
+    left out).**  In a real shaping run the masks already hold `unsafe_to_break` / `unsafe_to_concat` flags from earlier
+    stages; `merge_clusters` (through `set_cluster`) drops the flags of every glyph whose cluster it changes, where the
+    specification leaves masks alone (example `exLigFlag` below), so `C06_ligature_subst_refines_spec` is false there for
+    the flag bits.  What holds without `FeatMask`: the pass succeeds and glyph ids, clusters and FEATURE bits of the masks
+    are exactly those of the specification.  `hlmf`: the lookup mask is made of feature bits (the feature map never
+    allocates the glyph-flag bits).  Missing for the full statement: a specification of the glyph flags. -/
+theorem C06_ligature_subst_flags_partial (l : Lookup) (hall : l.subtables.all Subtable.isLigatureSt = true)
+    (hshort : LigsShort l.subtables) (hp : NoSkipFlags l.props)
+    (c : Ctx) (fuel : Nat) (hlmf : c.lookupMask &&& (U32MAX - Flag.DEFINED) = c.lookupMask)
+    (hps : c.perSyllable = false) (hlv : c.buf.level ≠ 2)
+    (hfl : c.buf.flags &&& Gen.Buf.produceUnsafeToConcat = 0)
+    (hsu : c.buf.successful = true) (hlen : c.buf.len ≤ c.buf.info.length) (hout : c.buf.out.length = c.buf.info.length)
+    (hbud : c.buf.len ≤ c.buf.maxLen)
+    (hplain : ∀ x ∈ c.buf.info.take c.buf.len, Plain x ∧ x.gid < 65536)
+    (hmono : NonDecr (c.buf.info.take c.buf.len) ∨ NonIncr (c.buf.info.take c.buf.len)) :
+    ∃ c', applyString c l fuel = .ok c' ∧ c'.buf.successful = true ∧ c'.buf.len ≤ c'.buf.info.length ∧
+      (c'.buf.info.take c'.buf.len).map (fun x => (x.gid, x.cluster, featBits x.mask))
+        = (applyLookupFwd c.font c.buf.level l c.lookupMask fuel ((c.buf.info.take c.buf.len).map toG) 0).map
+            (fun g => (g.gid, g.cluster, featBits g.mask)) := by
+  rw [toG_eq_projG]
+  exact applyString_ligF l hall hshort hp C06_gen_buffer_variants.2 C06_gen_extend_start_guard c fuel hlmf hps hlv hfl hsu hlen
+    hout hbud hplain hmono
+
 /-! non-vacuity.  One ligature subtable: glyph 1 starts "1 2 3" → 20 (a 3-component ligature), "1 2" → 21 and "1" → 22 (zero
     extra components: a plain replacement); glyph 5 starts "5 6" → 23.  The feature bit is 8 (the three low bits of a mask
     are the glyph flags).  Text `1 2 3 | 1 2 4 | 1 7 | 5 6 | 5 7`: all three ligatures of the first set fire in turn, "5 6"
@@ -946,5 +971,11 @@ example : (match applyString exLigFlag exLigLookup3 2 with
     | .error _ => false) = true := by decide
 example : (applyLookupFwd exLigFont 0 exLigLookup3 8 2 ((exLigFlag.buf.info.take 2).map toG) 0).map (fun g => (g.gid, g.cluster, g.mask))
     = [(21, 0, 9)] := by decide
+/-- … and `exLigFlag` satisfies the hypotheses of `C06_ligature_subst_flags_partial`: the feature bits (8) agree -/
+example : exLigFlag.lookupMask &&& (U32MAX - Flag.DEFINED) = exLigFlag.lookupMask ∧
+    (∀ x ∈ exLigFlag.buf.info.take exLigFlag.buf.len, Plain x ∧ x.gid < 65536) := by decide
+example : NonIncr (exLigFlag.buf.info.take exLigFlag.buf.len) := nonIncr_of_pairwise _ (by decide)
+example : (applyLookupFwd exLigFont 0 exLigLookup3 8 2 ((exLigFlag.buf.info.take 2).map toG) 0).map
+    (fun g => (g.gid, g.cluster, featBits g.mask)) = [(21, 0, 8)] := by decide
 
 end RbModel.Gsub
